@@ -55,7 +55,20 @@ where
     fn try_into_stream(
         self,
     ) -> Result<impl Stream<Item = Result<Bytes, Bytes>> + Send + 'static, E> {
-        <Inner as Req<E, I, O>>::try_into_stream(self.0)
+        // /repo's stream, delivered in pieces of the size the case asks for (as a server
+        // whose body arrives in transport frames would see it)
+        let n = RECHUNK.with(|r| r.get()).0;
+        let off = FRAME.with(|f| f.get()).0;
+        <Inner as Req<E, I, O>>::try_into_stream(self.0).map(move |s| {
+            s.flat_map(move |item| {
+                stream::iter(
+                    rechunk(vec![item], n)
+                        .into_iter()
+                        .map(move |c| c.map(|b| framed(&b, off)))
+                        .collect::<Vec<_>>(),
+                )
+            })
+        })
     }
     async fn try_into_websocket(
         self,
@@ -271,7 +284,8 @@ impl<E: FromServerFnError> ClientRes<E> for LoopRes {
         self,
     ) -> Result<impl Stream<Item = Result<Bytes, Bytes>> + Send + Sync + 'static, E> {
         let off = FRAME.with(|f| f.get()).1;
-        Ok(stream::iter(self.0.chunks.into_iter().map(move |c| match c {
+        let chunks = rechunk(self.0.chunks, RECHUNK.with(|r| r.get()).1);
+        Ok(stream::iter(chunks.into_iter().map(move |c| match c {
             Ok(b) => Ok(framed(&b, off)),
             Err(b) => Err(framed(&b, off)),
         })))
@@ -341,6 +355,33 @@ impl Edit {
     }
 }
 
+/// What a transport may do to a chunked body: runs of data chunks are joined and cut into
+/// pieces of `n` bytes (`n == 0`: left alone); error frames stay where they are.
+pub fn rechunk(chunks: Vec<Result<Bytes, Bytes>>, n: usize) -> Vec<Result<Bytes, Bytes>> {
+    if n == 0 {
+        return chunks;
+    }
+    let mut out = vec![];
+    let mut run: Vec<u8> = vec![];
+    let flush = |run: &mut Vec<u8>, out: &mut Vec<Result<Bytes, Bytes>>| {
+        for piece in run.chunks(n) {
+            out.push(Ok(Bytes::copy_from_slice(piece)));
+        }
+        run.clear();
+    };
+    for c in chunks {
+        match c {
+            Ok(b) => run.extend_from_slice(&b),
+            Err(e) => {
+                flush(&mut run, &mut out);
+                out.push(Err(e));
+            }
+        }
+    }
+    flush(&mut run, &mut out);
+    out
+}
+
 /// The bytes as a framed transport hands them over: a `Bytes::slice` view that starts `off`
 /// bytes after a 16-aligned address inside a larger receive buffer (header before, slack
 /// after). What the view contains is exactly `data`.
@@ -355,6 +396,9 @@ pub fn framed(data: &[u8], off: usize) -> Bytes {
 }
 
 thread_local! {
+    /// sizes at which the transport re-cuts a streamed request / response body
+    /// (0 = deliver the sender's chunks as they are; n = pieces of n bytes)
+    pub static RECHUNK: std::cell::Cell<(usize, usize)> = std::cell::Cell::new((0, 0));
     /// header lengths (0..=9) of the frames carrying the request and the response body
     pub static FRAME: std::cell::Cell<(usize, usize)> = std::cell::Cell::new((0, 0));
     pub static FAULTS: RefCell<Faults> = RefCell::new(Faults::default());
